@@ -68,6 +68,7 @@ class ApplyHistory(Machine):
                        "mask_checked", "apply_shape", "constrain_batched", "set_target_between_applies",
                        "out_of_domain_mix", "apply_on_copy", "integer_dtype_buffer", "non_contiguous_view_input", "pseudoinverse_of_used_transform",
                        "parameters_updated_in_place_between_applies", "earlier_result_still_valid", "caller_edited_an_earlier_result_in_place", "current_target_edited_in_place_and_set_again", "derived_non_alignment_changed_in_place", "identity_valued_transform",
+                       "source_mesh_with_overlapping_triangles", "target_point_set_overwritten_after_set_target",
                        "pseudoinverse_vector_asked_between_applies", "pseudoinverse_vector_of_singular_parameters_raised",
                        "composition_result_discarded_between_applies")
 
@@ -133,6 +134,13 @@ class ApplyHistory(Machine):
             return self._build(recipe[1:], shared_source).pseudoinverse()
         kind, seed, tseed = recipe
         S = PointCloud(self.S.copy()) if shared_source is None else shared_source
+        if seed % 4 == 0 and kind in ("PiecewiseAffine", "PythonPWA", "ChainPWAFirst", "ChainPWALast"):
+            # "no limitations on the nature of the triangle list are imposed": the first grid cell is covered by both
+            # of its diagonal splits, so points in it lie in two triangles that map them differently
+            k_ = self.cfg["k"]
+            extra = np.array([[0, 1, k_ + 1], [0, k_ + 1, k_], [1, k_ + 1, k_], [0, 1, k_]])
+            S = TriMesh(self.S.copy(), trilist=np.vstack([self.tri, extra]))
+            self.ctx.probe("source_mesh_with_overlapping_triangles")
         if kind in ("PiecewiseAffine", "PythonPWA"):
             T = PointCloud(self._target(tseed))
             return (PiecewiseAffine if kind == "PiecewiseAffine" else PythonPWA)(S, T)
@@ -306,9 +314,18 @@ class ApplyHistory(Machine):
             tgt = e["t"].target
             tgt.points[...] = self._target(op["seed"])
             e["t"].set_target(tgt)
+            e["target_scribbled"] = False
             self.ctx.probe("current_target_edited_in_place_and_set_again")
         else:
-            e["t"].set_target(PointCloud(self._target(op["seed"])))
+            pc_ = PointCloud(self._target(op["seed"]))
+            e["t"].set_target(pc_)
+            e["target_scribbled"] = False
+            if op["seed"] % 4 == 2:
+                # the caller goes on using the point set it has just handed over; the warp was fitted to what the
+                # point set was at the moment of set_target
+                pc_.points[...] = pc_.points * 0.5 + 11.0
+                e["target_scribbled"] = True
+                self.ctx.probe("target_point_set_overwritten_after_set_target")
         e["retargeted"] = True
 
     def _op_compose_noise(self, op):
@@ -391,6 +408,8 @@ class ApplyHistory(Machine):
         e = self.ts[op["t"] % len(self.ts)]
         if len(e["recipe"]) == 4 or e.get("vec") is not None or not hasattr(e["t"], "pseudoinverse") or e["kind"].startswith("Chain") or e["kind"] in ("WithDims", "R2LogR2RBF", "R2LogRRBF"):
             return
+        if e.get("target_scribbled"):
+            return   # (the inverse is built from the target object, whose coordinates the caller has overwritten since)
         try:
             inv = e["t"].pseudoinverse()
         except Exception:
